@@ -1,7 +1,8 @@
 import Nstd.Sha.LemmasHmac
 import Nstd.Sha.LemmasUnroll2
 import Nstd.Sha.ModelU2
-import Nstd.Sha.LemmasBody
+import Nstd.Generated.Sha256BodyProofs
+import Nstd.Sha.PropsSpec
 /-
   Property C17: SHA-256 and HMAC-SHA-256 equal the standard for every input and chunking.
 
@@ -13,15 +14,6 @@ import Nstd.Sha.LemmasBody
 -/
 namespace Nstd.Sha
 open Nstd.Generated
-
-/-- the constants of `Spec.lean` really are what FIPS 180-4 §4.2.2 / §5.3.3 describes: the list of
-primes is the 64 primes below 312 and the integer roots used are exact floors -/
-theorem spec_constants_are_roots_of_primes :
-    Spec.primes64.length = 64 ∧
-    (∀ p ∈ Spec.primes64, Spec.IsFloorRoot 3 (p * 2 ^ 96) (Spec.iroot 3 (p * 2 ^ (32 * 3)))) ∧
-    (∀ p ∈ Spec.primes64.take 8, Spec.IsFloorRoot 2 (p * 2 ^ 64) (Spec.iroot 2 (p * 2 ^ (32 * 2)))) := by
-  unfold Spec.IsFloorRoot
-  decide +kernel
 
 /-- the table `Sha256::Private::K[64]` of the current sources is K⁽²⁵⁶⁾ of FIPS 180-4 §4.2.2 -/
 theorem K_is_fips : Sha256.K = Spec.K := genK_eq
@@ -89,13 +81,6 @@ theorem transform_unroll2_eq (data : List UInt32) (st0 : Sha256U2.RS) (hW : st0.
     unfold transformU2
     simp only [h'.1, h'.2]
 
-/-- the padded message of the spec is a whole number of 64-byte blocks (so `Spec.hashBlocks`, which
-ignores a trailing partial block, consumes all of it) -/
-theorem spec_pad_is_whole_blocks (m : List UInt8) : (Spec.pad m).length % 64 = 0 := by
-  simp only [Spec.pad, Spec.zeroBytes, Spec.be64, List.length_append, List.length_cons, List.length_nil,
-    List.length_replicate, List.length_map, List.length_range]
-  omega
-
 /-- for every way of splitting a message over `update` calls, `finalize` yields the FIPS digest -/
 theorem streaming (chunks : List (List UInt8)) (hlen : chunks.flatten.length < 2 ^ 61) :
     (finalize (chunks.foldl update init)).1 = Spec.sha256 chunks.flatten :=
@@ -119,6 +104,61 @@ theorem streaming_generated (chunks : List (List UInt8)) (hlen : chunks.flatten.
   have hu : Sha256Body.update = update := funext fun p => funext fun d => gen_update_eq p d
   rw [hu, gen_finalize_eq]
   exact streaming chunks hlen
+
+/-- beyond the standard's range: the byte counter is a `uint64` and the bit length is `count << 3`, so for
+2^61 ≤ length < 2^64 bytes (where FIPS 180-4 defines nothing: its length field holds < 2^64 BITS) the code still
+computes the formula of the standard with the low 64 bits of the bit length in the length field - which is what
+`Spec.sha256` does there too (`Spec.be64` keeps the low 64 bits).  So: for every chunking of every message
+shorter than 2^64 bytes `finalize` = `Spec.sha256`; below 2^61 bytes that is the FIPS digest (`streaming`), from
+2^61 bytes on it is the FIPS computation with a wrapped length field (`length_field_wraps`), and from 2^64 bytes on
+`count` itself wraps (not covered by any theorem; unreachable in practice). -/
+theorem streaming_up_to_2_64 (chunks : List (List UInt8)) (hlen : chunks.flatten.length < 2 ^ 64) :
+    (finalize (chunks.foldl update init)).1 = Spec.sha256 chunks.flatten := by
+  have := digest_chunks_from [] init inv_init chunks (by simpa using hlen)
+  simpa using this.1
+
+/-- the length field of the padding as the spec writes it: only the low 64 bits of the bit length count -/
+theorem length_field_wraps (len : Nat) : Spec.be64 (8 * len) = Spec.be64 ((8 * len) % 2 ^ 64) := by
+  simp only [Spec.be64, List.map_inj_left, List.mem_range]
+  intro k hk
+  congr 1
+  have h8 : (7 - k) ≤ 7 := by omega
+  have hcases : 7 - k = 0 ∨ 7 - k = 1 ∨ 7 - k = 2 ∨ 7 - k = 3 ∨ 7 - k = 4 ∨ 7 - k = 5 ∨ 7 - k = 6 ∨ 7 - k = 7 := by omega
+  rcases hcases with h | h | h | h | h | h | h | h <;> rw [h] <;> omega
+
+/-- a hasher copied mid-stream (`Sha256` is copyable: implicit member-wise copy constructor / assignment; the model's
+objects are values): after any common prefix `pre`, the original continued with `a` and the copy continued with `b`
+give the digests of `pre ++ a` and `pre ++ b` - neither continuation disturbs the other (in the model by construction;
+on the real code by the correspondence ops `fork`/`assign`/`swap`) - and both objects are reusable afterwards -/
+theorem copy_midstream (pre a b : List (List UInt8))
+    (ha : pre.flatten.length + a.flatten.length < 2 ^ 61) (hb : pre.flatten.length + b.flatten.length < 2 ^ 61) :
+    let p := pre.foldl update init
+    let copy := p
+    (finalize (a.foldl update p)).1 = Spec.sha256 (pre.flatten ++ a.flatten) ∧
+    (finalize (b.foldl update copy)).1 = Spec.sha256 (pre.flatten ++ b.flatten) ∧
+    Reusable (finalize (a.foldl update p)).2 ∧ Reusable (finalize (b.foldl update copy)).2 := by
+  intro p copy
+  have hI : Inv pre.flatten p := by
+    have := foldl_update_inv transformOK pre [] init inv_init (by rw [List.length_nil]; omega)
+    simpa using this
+  have h1 := digest_chunks_from pre.flatten p hI a (by omega)
+  have h2 := digest_chunks_from pre.flatten p hI b (by omega)
+  exact ⟨h1.1, h2.1, h1.2, h2.2⟩
+
+/-- byte ↔ word conversions: `WriteByteBlock` assembles the sixteen words of a block big-endian (FIPS 180-4 §5.2.1:
+`data32 buf = Spec.blockWords buf`, for every buffer content - the code reads single bytes and shifts, so no
+alignment or host-endianness assumption enters), `finalize` emits each state word big-endian (§6.2.2 "H₀‖…‖H₇"),
+and the 64-bit length is written big-endian byte by byte (`lenBytes` = `Spec.be64`) -/
+theorem byte_word_assembly_is_big_endian (buf : List UInt8) (s0 s1 s2 s3 s4 s5 s6 s7 : UInt32) (c : UInt64) :
+    data32 buf = Spec.blockWords buf ∧
+    digestOf [s0, s1, s2, s3, s4, s5, s6, s7] = [s0, s1, s2, s3, s4, s5, s6, s7].flatMap Spec.wordBytes ∧
+    lenLoop 8 56 (c <<< 3) (List.replicate 64 0) = List.replicate 56 0 ++ Spec.be64 (8 * c.toNat) := by
+  refine ⟨data32_eq buf, digestOf_eq s0 s1 s2 s3 s4 s5 s6 s7, ?_⟩
+  have := lenLoop_append 8 (c <<< 3) (List.replicate 56 0) (List.replicate 8 0) (by simp)
+  simp only [List.length_replicate] at this
+  rw [show List.replicate 64 (0 : UInt8) = List.replicate 56 0 ++ List.replicate 8 0 from by decide]
+  rw [this, lenBytes_eq_all]
+  simp
 
 /-- `Sha256::hash` -/
 theorem hash_eq_fips (m : List UInt8) (hlen : m.length < 2 ^ 61) : hash m = Spec.sha256 m := by
@@ -168,19 +208,5 @@ example : Sha256.H0.length = 8 ∧ (data32 (List.replicate 64 0)).length = 16 :=
 example : ∃ st0 : Sha256U2.RS, st0.W.length = 16 ∧ st0.state.length = 8 ∧ st0.ok = true ∧ st0.a = 7 :=
   ⟨{ W := List.replicate 16 5, state := Sha256.H0, a := 7, b := 1, c := 2, d := 3, e := 4, f := 5, g := 6, h := 9, ok := true },
    by decide, by decide, rfl, rfl⟩
-
-/-! ### tests of the transcription of the standard (kernel evaluation of `Spec` on the classic vectors;
-the compiled driver additionally compares `Spec.sha256` / `Spec.hmacSha256` with Python hashlib/hmac on every run) -/
-
-/-- FIPS 180-4 / NIST example "abc" -/
-example : Spec.sha256 [0x61, 0x62, 0x63] = [0xba, 0x78, 0x16, 0xbf, 0x8f, 0x01, 0xcf, 0xea, 0x41, 0x41, 0x40, 0xde, 0x5d, 0xae, 0x22, 0x23, 0xb0, 0x03, 0x61, 0xa3, 0x96, 0x17, 0x7a, 0x9c, 0xb4, 0x10, 0xff, 0x61, 0xf2, 0x00, 0x15, 0xad] := by decide +kernel
-/-- empty message -/
-example : Spec.sha256 [] = [0xe3, 0xb0, 0xc4, 0x42, 0x98, 0xfc, 0x1c, 0x14, 0x9a, 0xfb, 0xf4, 0xc8, 0x99, 0x6f, 0xb9, 0x24, 0x27, 0xae, 0x41, 0xe4, 0x64, 0x9b, 0x93, 0x4c, 0xa4, 0x95, 0x99, 0x1b, 0x78, 0x52, 0xb8, 0x55] := by decide +kernel
-/-- NIST two-block example "abcdbcdecdefdefgefghfghighijhijkijkljklmklmnlmnomnopnopq" -/
-example : Spec.sha256 [0x61, 0x62, 0x63, 0x64, 0x62, 0x63, 0x64, 0x65, 0x63, 0x64, 0x65, 0x66, 0x64, 0x65, 0x66, 0x67, 0x65, 0x66, 0x67, 0x68, 0x66, 0x67, 0x68, 0x69, 0x67, 0x68, 0x69, 0x6a, 0x68, 0x69, 0x6a, 0x6b, 0x69, 0x6a, 0x6b, 0x6c, 0x6a, 0x6b, 0x6c, 0x6d, 0x6b, 0x6c, 0x6d, 0x6e, 0x6c, 0x6d, 0x6e, 0x6f, 0x6d, 0x6e, 0x6f, 0x70, 0x6e, 0x6f, 0x70, 0x71] = [0x24, 0x8d, 0x6a, 0x61, 0xd2, 0x06, 0x38, 0xb8, 0xe5, 0xc0, 0x26, 0x93, 0x0c, 0x3e, 0x60, 0x39, 0xa3, 0x3c, 0xe4, 0x59, 0x64, 0xff, 0x21, 0x67, 0xf6, 0xec, 0xed, 0xd4, 0x19, 0xdb, 0x06, 0xc1] := by decide +kernel
-/-- RFC 4231 test case 1 -/
-example : Spec.hmacSha256 (List.replicate 20 0x0b) [0x48, 0x69, 0x20, 0x54, 0x68, 0x65, 0x72, 0x65] = [0xb0, 0x34, 0x4c, 0x61, 0xd8, 0xdb, 0x38, 0x53, 0x5c, 0xa8, 0xaf, 0xce, 0xaf, 0x0b, 0xf1, 0x2b, 0x88, 0x1d, 0xc2, 0x00, 0xc9, 0x83, 0x3d, 0xa7, 0x26, 0xe9, 0x37, 0x6c, 0x2e, 0x32, 0xcf, 0xf7] := by decide +kernel
-/-- RFC 4231 test case 6: 131-byte key, the `key.length > B` branch of `Spec.hmacKey` ("hash key first") -/
-example : Spec.hmacSha256 (List.replicate 131 0xaa) [0x54, 0x65, 0x73, 0x74, 0x20, 0x55, 0x73, 0x69, 0x6e, 0x67, 0x20, 0x4c, 0x61, 0x72, 0x67, 0x65, 0x72, 0x20, 0x54, 0x68, 0x61, 0x6e, 0x20, 0x42, 0x6c, 0x6f, 0x63, 0x6b, 0x2d, 0x53, 0x69, 0x7a, 0x65, 0x20, 0x4b, 0x65, 0x79, 0x20, 0x2d, 0x20, 0x48, 0x61, 0x73, 0x68, 0x20, 0x4b, 0x65, 0x79, 0x20, 0x46, 0x69, 0x72, 0x73, 0x74] = [0x60, 0xe4, 0x31, 0x59, 0x1e, 0xe0, 0xb6, 0x7f, 0x0d, 0x8a, 0x26, 0xaa, 0xcb, 0xf5, 0xb7, 0x7f, 0x8e, 0x0b, 0xc6, 0x21, 0x37, 0x28, 0xc5, 0x14, 0x05, 0x46, 0x04, 0x0f, 0x0e, 0xe3, 0x7f, 0x54] := by decide +kernel
 
 end Nstd.Sha
